@@ -162,6 +162,7 @@ inline ExecOut execute(Adapter& A, const Case& c, const Opts& o, xv::Scheduler& 
         const auto& ops = c.prog[tid - 1];
         for (size_t i = 0; i < ops.size(); i++) {
           size_t slot;
+          xv::yield_point();   // START step: the invocation is a scheduling point of its own
           {
             xv::Quiet q2;
             OpRec r; r.tid = tid; r.idx = (int)i; r.name = ops[i].name; r.args = ops[i].args; r.inv = ++g_clock;
